@@ -197,3 +197,20 @@ func (r *RockDB) VerifScanLocalExpireOnce() error {
 	}
 	return nil
 }
+
+// ---- secondary hash indexes
+
+// VerifScanHsetIndexState reports the state of the hash index on (table, field): -1 if there
+// is no such index.  The harness polls it to wait for the asynchronous build / clean loops.
+func (r *RockDB) VerifScanHsetIndexState(table, field string) int {
+	hi, err := r.indexMgr.GetHsetIndex(table, field)
+	if err != nil || hi == nil {
+		return -1
+	}
+	t := r.indexMgr.GetTableIndexes(table)
+	if t != nil {
+		t.RLock()
+		defer t.RUnlock()
+	}
+	return int(hi.State)
+}
